@@ -437,8 +437,21 @@ func (w *world) pendingRewards(ctx sdk.Context) map[string]string {
 	for _, d := range dels {
 		qctx, _ := ctx.CacheContext()
 		qctx = infinite(qctx)
-		res, err := w.distQ.DelegationRewards(qctx, &distrtypes.QueryDelegationRewardsRequest{DelegatorAddress: d.DelegatorAddress, ValidatorAddress: d.ValidatorAddress})
 		k := d.DelegatorAddress + "|" + d.ValidatorAddress
+		var res *distrtypes.QueryDelegationRewardsResponse
+		var err error
+		func() {
+			// x/distribution's own query must be able to answer for every delegation in the state: one it cannot (a panic
+			// on a delegation without distribution records) is a state no native staking message leaves behind
+			defer func() {
+				if p := recover(); p != nil {
+					err = fmt.Errorf("panic: %v", p)
+					w.run.Violation("native-reward-query-panics-for-a-delegation-in-state", w.label, map[string]any{"delegator": d.DelegatorAddress, "validator": d.ValidatorAddress,
+						"height": ctx.BlockHeight(), "panic": fmt.Sprint(p)})
+				}
+			}()
+			res, err = w.distQ.DelegationRewards(qctx, &distrtypes.QueryDelegationRewardsRequest{DelegatorAddress: d.DelegatorAddress, ValidatorAddress: d.ValidatorAddress})
+		}()
 		if err != nil {
 			out[k] = "error: " + err.Error()
 			continue
